@@ -141,6 +141,8 @@ def show(r):
         return repr(r[1])
     if h == "lit":
         return "Pregex(%r)" % r[1]
+    if h == "empty":
+        return "Pregex()"
     if h == "ref":
         return "let%d" % r[1]
     if h == "tok":
